@@ -188,8 +188,9 @@ class CSSMediaRule(cssrule.CSSRuleRules):
                 def atrule(expected, seq, token, tokenizer):
                     # TODO: get complete rule!
                     tokens = self._tokensupto2(tokenizer, token)
-                    # at-keywords are case-insensitive: "@PAGE", "@MEDIA"
-                    atval = self._tokenvalue(token, normalize=True)
+                    # at-keywords are case-insensitive and may contain
+                    # escapes: "@PAGE", "@MEDIA", "@p\61ge"
+                    atval = self._normalizeatkeyword(self._tokenvalue(token))
                     factories = {
                         '@page': css_parser.css.CSSPageRule,
                         '@media': CSSMediaRule,
